@@ -182,5 +182,19 @@ CHECKS["C10"] = dict(
     technique="harness-recorded pull logs validated in batch by TLC against a TLA+ demand-driven evaluator family (trace validation)",
 )
 
+CHECKS["C12"] = dict(
+    engine="CallShape",
+    category="exploration",
+    text=("CallShape.tla: signatures (1..3 parameters, a suffix with defaults) x call shapes (positional prefix, keyword set, which "
+          "arguments are query variables) with Python's binding rule, the mode, the expected body invocations (one per candidate "
+          "binding with the values written in each position) and the expected solutions, all evaluated by TLC; the OffByOne "
+          "switch (first parameter name skipped) is refuted. All 253 shapes are replayed on generated @symbolic_function "
+          "functions (bool- and int-returning) and Predicate subclasses (plain and inheriting from an already used base "
+          "predicate) with a call log; exhaustive over the shape space."),
+    design_ref="DESIGN.md §4 C12",
+    note="Trusted: TLC, the generated functions / predicate classes. Variables range over the truthy ints 1..3.",
+    technique="TLA+ call-shape/binding model enumerated with TLC; every shape replayed on generated predicates and symbolic functions",
+)
+
 NOT_YET = "check not built yet in this build round (specified in DESIGN.md §4; will be claimed when its TLA+ module and binding exist)"
 NOT_APPLICABLE = {}
